@@ -293,6 +293,21 @@ impl Property for Soundness {
                 let program = format!("f := (x: {}, y: {}) -> any {{ r := {path}(x, y); return r; }}", x.ty, y.ty);
                 self.check_function(&program, &[x.values, y.values], stats)
             }
+            "probe" => {
+                // a fixed program of a recorded finding, with a signature of its own: an accepted program that
+                // ends in an internal panic
+                let text = case["text"].as_str().unwrap_or("");
+                stats.eval();
+                stats.nontrivial(text);
+                let run = exec::run_program(text, false);
+                match &run.outcome {
+                    Outcome::Panic { msg, loc, phase } => fail(
+                        case["sig"].as_str().unwrap_or("probe").to_string(),
+                        format!("probe `{text}`\n  accepted, then an internal panic during {phase}: {msg} @ {loc}"),
+                    ),
+                    _ => Verdict::Pass,
+                }
+            }
             "program" | "near-miss" => {
                 let text = &crate::genr::case::materialise(case["text"].as_str().unwrap_or(""), case);
                 let text = text.as_str();
@@ -433,6 +448,13 @@ pub fn error_sessions() -> Vec<Json> {
     out
 }
 
+/// Recorded findings kept visible: accepted programs that end in an internal panic, outside what the
+/// generators write (they never use the untyped `[]` where a typed array is expected).
+const PROBES: &[(&str, &str)] = &[(
+    "pruned-branch-retypes-sum-of-empty-array",
+    "a := if true { [] } else { [\"x\"] }; c := (a~ $+)[0]; c",
+)];
+
 pub fn run(session: &Session, prop: &'static Soundness) -> i32 {
     let _ = KNOWN_GLOBAL.set(session.known.iter().map(|k| k.sig.clone()).collect());
     crate::engine::run_regressions(session, prop);
@@ -475,6 +497,12 @@ pub fn run(session: &Session, prop: &'static Soundness) -> i32 {
                 }
             }
             _ => {}
+        }
+    }
+    if prop.id == "C02" {
+        // probes of recorded findings (each keeps its own signature)
+        for (sig_tail, text) in PROBES {
+            session.run_one(prop, &json!({"kind": "probe", "sig": format!("C02:probe:{sig_tail}"), "text": text}));
         }
     }
     for text in crate::props::c03::corpus() {
